@@ -14,6 +14,7 @@ from ..view import View
 from . import common
 
 from redress import AsyncPolicy, AsyncRetry, CircuitBreaker, CircuitOpenError, ErrorClass  # noqa: E402
+from redress.errors import PermanentError, ServerError  # noqa: E402
 
 JOBS = {"quick": 4, "thorough": 16}
 G = gen.G
@@ -260,7 +261,9 @@ class ConcRun:
                 o = spec["outcomes"][i % len(spec["outcomes"])]
                 if o[0] == "ok":
                     return ("val", cid, i)
-                x = rig.ScriptExc(o[1], i)
+                # marker types, so that a policy without a retry component (default_classifier) sees the scripted class too
+                x = {"TRANSIENT": TimeoutError, "SERVER_ERROR": ServerError, "PERMANENT": PermanentError}[o[1]](f"{o[1]}@{i}")
+                x.rv_klass = o[1]
                 raise x
             finally:
                 me.inflight.discard(cid)
@@ -290,11 +293,15 @@ def run_interleaving(prog, prefix, rng=None):
         for cid in range(k):
             coros[cid] = run.mk_call(cid)
             state[cid] = "new"
+        ticks = list(prog.get("ticks") or [])
+        CLOCK = k  # pseudo-participant: when scheduled, real time passes while the calls stay suspended
         step = 0
         while True:
             enabled = tuple(c for c in range(k) if state[c] != "done")
             if not enabled:
                 break
+            if ticks:
+                enabled = enabled + (CLOCK,)
             if step < len(prefix):
                 c = prefix[step]
                 if c not in enabled:
@@ -305,6 +312,11 @@ def run_interleaving(prog, prefix, rng=None):
                 c = enabled[0]
             choices.append((enabled, c))
             step += 1
+            if c == CLOCK:
+                d = ticks.pop(0)
+                world.t += d
+                run.events.append((None, ("tick", d, world.t)))
+                continue
             run.cur = c
             # start offsets: the first activation of a call may advance the clock
             if state[c] == "new":
@@ -340,9 +352,12 @@ def judge_interleaving(ctx, prog, run, choices):
             t += step[1]
     # drop the pre events (cur None) and replay the rest in order
     admitted = {}
+    admitted_mode = {}
     probes_in_flight = set()
     maxprobe = 0
     key = None
+    probe_owner = None
+    stale = []
     sched = [c for _, c in choices]
     for cid, ev in run.events:
         if cid is None:
@@ -353,14 +368,32 @@ def judge_interleaving(ctx, prog, run, choices):
             if bad:
                 return bad[0], f"{bad[1]} [call {cid}; schedule {sched}]"
             admitted[cid] = ev[1]
-            if ev[1] and model.mode == "half_open":
+            admitted_mode[cid] = before
+            if ev[1] and probe_owner is not None:
+                # the probe's result has not been recorded yet: nobody else may be admitted
+                if stale:
+                    return "stale-record-from-call-admitted-before-the-trip", (
+                        f"call {cid} admitted at t={ev[4]} while probe call {probe_owner} is still in flight; the slot/state was changed by "
+                        f"{stale} - record(s) from call(s) admitted while the circuit was still closed [schedule {sched}]"
+                    )
+                return "admitted-while-probe-in-flight", f"call {cid} admitted (state {ev[2]}) while probe call {probe_owner}'s result is not recorded [schedule {sched}]"
+            if ev[1] and before in ("open", "half_open"):
+                probe_owner = cid
+                stale = []
                 probes_in_flight.add(cid)
                 maxprobe = max(maxprobe, len(probes_in_flight))
         elif ev[0] in ("br.success", "br.failure", "br.cancel"):
+            before = model.mode
             bad = feed(model, ev, ctx)
             if bad:
                 return bad[0], f"{bad[1]} [call {cid}; schedule {sched}]"
             probes_in_flight.discard(cid)
+            if cid == probe_owner:
+                probe_owner = None
+                stale = []
+            elif probe_owner is not None and admitted_mode.get(cid) == "closed":
+                stale.append((cid, ev[0]))
+                ctx.cnt["stale_records_while_probe_in_flight"] += 1
         elif ev[0] == "op-start":
             if admitted.get(cid) is False:
                 return "rejected-but-invoked", f"call {cid} was rejected by the breaker yet its operation started [schedule {sched}]"
@@ -439,7 +472,28 @@ def gen_program(rng, k, retry, pid):
         outs = [rng.choice([["ok"], ["exc", "TRANSIENT"], ["exc", "TRANSIENT"], ["exc", "PERMANENT"], ["exc", "SERVER_ERROR"]]) for _ in range(2)]
         calls.append({"meth": rng.choice(["call", "execute"]), "suspends": rng.randint(1, 2), "dur": rng.choice([0.0, G, 0.25, 0.25, rcv, rcv + G]), "outcomes": outs,
                       "start_gap": rng.choice([0.0, 0.0, G, 2 * G]) if init in ("almost", "boundary") else 0.0, "abort": rng.random() < 0.15})
-    return {"id": pid, "breaker": {"threshold": th, "window": 10.0, "recovery": rcv, "trip_on": ["TRANSIENT", "SERVER_ERROR"], "pre": pre, "init": init}, "retry": retry, "calls": calls}
+    ticks = []
+    if rng.random() < 0.5:
+        ticks = [rng.choice([rcv + G, rcv, rcv - G, G, 2 * rcv]) for _ in range(rng.randint(1, 2))]
+    return {"id": pid, "breaker": {"threshold": th, "window": 10.0, "recovery": rcv, "trip_on": ["TRANSIENT", "SERVER_ERROR"], "pre": pre, "init": init}, "retry": retry, "calls": calls, "ticks": ticks}
+
+
+def stale_programs():
+    """Directed family: calls admitted while the circuit is still closed are still running when it opens and
+    goes half-open (a clock tick passes the recovery timeout while they are suspended)."""
+    out = []
+    for th in (1, 2):
+        for slow_out in (["ok"], ["exc", "TRANSIENT"], ["exc", "PERMANENT"]):
+            for meth in ("call", "execute"):
+                calls = [
+                    {"meth": meth, "suspends": 2, "dur": 0.0, "outcomes": [slow_out], "start_gap": 0.0, "abort": False},
+                    {"meth": "call", "suspends": 1, "dur": 0.0, "outcomes": [["exc", "TRANSIENT"]], "start_gap": 0.0, "abort": False},
+                    {"meth": "execute", "suspends": 2, "dur": 0.0, "outcomes": [["ok"]], "start_gap": 0.0, "abort": False},
+                    {"meth": "call", "suspends": 1, "dur": 0.0, "outcomes": [["ok"]], "start_gap": 0.0, "abort": False},
+                ]
+                out.append({"id": f"stale-th{th}-{slow_out[-1]}-{meth}", "breaker": {"threshold": th, "window": 10.0, "recovery": 1.0, "trip_on": ["TRANSIENT", "SERVER_ERROR"],
+                                                                                "pre": [["fail", "TRANSIENT"]] * (th - 1), "init": "closed-near"}, "retry": False, "calls": calls, "ticks": [1.0 + G]})
+    return out
 
 
 def work(ctx, tier):
@@ -475,6 +529,19 @@ def work(ctx, tier):
             ctx.inc("programs_random")
         if p == 0 and ctx.shard == 0:
             ctx.sample({"interleaver_program": prog})
+    for i, prog in enumerate(stale_programs()):
+        if i % ctx.nshards != ctx.shard:
+            continue
+        for _ in range(400 if tier == "quick" else 4000):
+            run, choices = run_interleaving(prog, [], rng)
+            ctx.inc("interleavings")
+            ctx.inc("directed_stale_schedules")
+            ctx.add_hash("schedules", [prog["id"], [c for _, c in choices]])
+            bad = judge_interleaving(ctx, prog, run, choices)
+            if bad:
+                stop = ctx.viol(bad[0], f"[interleaver {prog['id']}] {bad[1]}", {"program": prog, "prefix": [c for _, c in choices]})
+                if stop:
+                    break
 
 
 def conclude(ctx):
@@ -500,7 +567,7 @@ def conclude(ctx):
         evaluations=ctx.cnt["calls"] + ctx.cnt["interleavings"],
         nontrivial=len(ctx.sets["schedules"]) + len(ctx.sets["states"]),
         floors=floors,
-        assumptions=common.ASSUME_COMMON + ["the shadow BreakerModel is the specification (don't-care at exact boundary ages)", "async concurrency is explored at suspension-point granularity (coroutines cannot be pre-empted elsewhere)"],
+        assumptions=common.ASSUME_COMMON + ["the shadow BreakerModel is the specification (don't-care at exact boundary ages)", "KF3 (a record from a call admitted before the trip lands while a probe is in flight) is recognised only by that mechanism", "async concurrency is explored at suspension-point granularity (coroutines cannot be pre-empted elsewhere)"],
         extra={"max_probes_in_flight_observed": ctx.maxs.get("max_probes_in_flight", 0), "interleavings": ctx.cnt["interleavings"], "programs_exhausted": ctx.cnt["programs_exhausted"]},
         exhaustive=False,
     )
